@@ -473,10 +473,93 @@ def p_fromgeo_rect(e, arg):
     e.explore(prog, 'fromgeo_rect')
 
 
+def p_fromgeo_refined(e, arg):
+    """fromgeo on an irregular geometry: a real rectangular geometry refined on a subset of columns by the real refine()
+    (quadrilaterals and triangles with symbolic vertex coordinates).  Block and connection lists as announced, volumes, total
+    rock volume, vertical and atmosphere connections exactly; horizontal connections through their squares (the edge length
+    and the perpendicular distances are square roots): area^2 = |edge|^2 x (lower height)^2, distance_i^2 x |edge|^2 =
+    cross(edge, centre_i - node)^2."""
+    (nx, ny, nz, atm), nsurf, cols = arg
+    tag = '[%dx%dx%d,atm%d,%d surfaces,refine%s]' % (nx, ny, nz, atm, nsurf, tuple(cols))
+    def prog(e):
+        geo, S = build_rect(e, nx, ny, nz, atm, 0, nsurf)
+        e.call(e.getattr(geo, 'refine'), [[geo.fields['columnlist'][k] for k in cols]])
+        tg = e.load_module('t2grids').globals
+        grid = e.call(e.getattr(e.call(tg['t2grid'], []), 'fromgeo'), [geo])
+        gf, tf = geo.fields, grid.fields
+        names = [b.fields['name'] for b in tf['blocklist']]
+        e.prove(names == gf['block_name_list'] and len(set(names)) == len(names), 'post:blocks_are_the_announced_blocks_in_order' + tag)
+        cnames = [tuple(b.fields['name'] for b in c.fields['block']) for c in tf['connectionlist']]
+        e.prove(cnames == gf['block_connection_name_list'] and len(set(cnames)) == len(cnames), 'post:connections_are_the_announced_connections_in_order' + tag)
+        natm = {0: 1, 1: len(gf['columnlist']), 2: 0}[atm]
+        col = dict((c.fields['name'], c) for c in gf['columnlist']); lay = dict((l.fields['name'], l) for l in gf['layerlist'])
+        li_of = dict((l.fields['name'], k) for k, l in enumerate(gf['layerlist']))
+        where, okv, total = {}, True, z3.RealVal(0)
+        def btop(c, l):
+            sf, top = to_real(e.getattr(c, 'surface')), to_real(l.fields['top'])
+            return z3.If(z3.Or(sf <= top, li_of[l.fields['name']] == 1), sf, top)
+        for b in tf['blocklist'][natm:]:
+            nm = b.fields['name']
+            c = col[e.call(e.getattr(geo, 'column_name'), [nm])]; l = lay[e.call(e.getattr(geo, 'layer_name'), [nm])]
+            where[nm] = (c, l)
+            okv = okv and _valid(e, to_real(b.fields['volume']) == to_real(c.fields['area']) * (btop(c, l) - to_real(l.fields['bottom'])))
+            total = total + to_real(b.fields['volume'])
+        e.prove(okv, 'post:block_volume_is_area_times_height_to_block_top' + tag)
+        bottom = to_real(gf['layerlist'][-1].fields['bottom'])
+        e.prove(_valid(e, total == sum(to_real(c.fields['area']) * (to_real(e.getattr(c, 'surface')) - bottom) for c in gf['columnlist'])), 'post:total_rock_volume_is_sum_of_area_times_depth_to_surface' + tag)
+        okh, okvert, okatm, why = True, True, True, ''
+        nh = 0
+        for c in tf['connectionlist']:
+            b0, b1 = c.fields['block']
+            n0, n1 = b0.fields['name'], b1.fields['name']
+            d0, d1 = [to_real(x) for x in c.fields['distance']]
+            if n0 in where and n1 in where and where[n0][1] is where[n1][1]:
+                nh += 1
+                (c0, l), (c1, _) = where[n0], where[n1]
+                shared = [n for n in c0.fields['node'] if any(n is m for m in c1.fields['node'])]
+                if len(shared) != 2:
+                    okh, why = False, 'columns of %r share %d nodes' % ((n0, n1), len(shared)); continue
+                (ax, ay), (bx, by) = [(to_real(n.fields['pos'].items[0]), to_real(n.fields['pos'].items[1])) for n in shared]
+                ex, ey = bx - ax, by - ay
+                e2 = ex * ex + ey * ey
+                h0, h1 = btop(c0, l) - to_real(l.fields['bottom']), btop(c1, l) - to_real(l.fields['bottom'])
+                hmin = z3.If(h0 <= h1, h0, h1)
+                area = to_real(c.fields['area'])
+                conds = [area >= 0, area * area == e2 * hmin * hmin]
+                for d, cc in ((d0, c0), (d1, c1)):
+                    cx, cy = to_real(cc.fields['centre'].items[0]) - ax, to_real(cc.fields['centre'].items[1]) - ay
+                    cr = ex * cy - ey * cx
+                    conds += [d >= 0, d * d * e2 == cr * cr]
+                if not _valid(e, z3.And(*conds), timeout=60000):
+                    okh, why = False, 'connection %r area %s distances %s' % ((n0, n1), c.fields['area'], c.fields['distance'])
+            elif n0 in where and n1 in where:
+                (c0, l0), (c1, l1) = where[n0], where[n1]
+                z0c, z1c = to_real(b0.fields['centre'].items[2]), to_real(b1.fields['centre'].items[2])
+                if not (c0 is c1 and _valid(e, z3.And(to_real(c.fields['area']) == to_real(c0.fields['area']), to_real(c.fields['dircos']) == -1, d0 + d1 == z1c - z0c, d0 > 0, d1 > 0))):
+                    okvert, why = False, 'vertical connection %r' % ((n0, n1),)
+            else:
+                c0 = where[n0][0]
+                z0c = to_real(b0.fields['centre'].items[2])
+                if not _valid(e, z3.And(to_real(c.fields['area']) == to_real(c0.fields['area']), to_real(c.fields['dircos']) == -1, d0 == to_real(e.getattr(c0, 'surface')) - z0c, d1 == to_real(gf['atmosphere_connection']))):
+                    okatm, why = False, 'atmosphere connection %r' % ((n0, n1),)
+        for name, ok in (('post:horizontal_connection_area_and_perpendicular_distances_through_their_squares', okh), ('post:vertical_connection_column_area_cosine_minus_1_distances_add_up', okvert),
+                         ('post:atmosphere_connection_distance_to_surface_and_atmosphere_distance', okatm)):
+            if ok:
+                e.prove(True, name + tag)
+            else:
+                e.fail(name + tag, why)
+        e.prove(nh >= 3 and any(len(c.fields['node']) == 3 for c in gf['columnlist']), 'cover:triangles_and_horizontal_connections_present' + tag)
+    e.explore(prog, 'fromgeo_refined')
+
+
+REFINED = [((2, 1, 2, 0), 0, (0,)), ((2, 2, 2, 2), 0, (0,))]
+REFINED_THOROUGH = [((2, 2, 2, 0), 1, (0,)), ((3, 2, 2, 1), 0, (0, 1)), ((2, 2, 3, 2), 1, (3,))]
+
 RECTS = [(2, 1, 2, 0, 0, 1), (2, 1, 2, 1, 0, 2), (2, 2, 2, 2, 0, 1), (3, 1, 3, 0, 1, 1), (1, 2, 3, 1, 2, 1), (2, 1, 3, 2, 3, 2), (3, 2, 2, 0, 0, 0)]
 
 PROGRAMS = [('p_block_functions', (i, atm)) for i in (1, 2, 3) for atm in (0, 1, 2)]
 PROGRAMS += [('p_fromgeo_rect', r) for r in RECTS]
+PROGRAMS += [('p_fromgeo_refined', r) for r in REFINED]
 PROGRAMS += [('p_atmosphere_blocks', a) for a in (0, 1, 2)]
 PROGRAMS += [('p_column_volume', None)]
 PROGRAMS += [('p_connection_params', i) for i in (1, 2)]
@@ -491,7 +574,7 @@ RECTS_THOROUGH = [(3, 3, 3, 0, 0, 2), (4, 2, 3, 1, 0, 2), (2, 2, 4, 2, 2, 2), (3
 
 
 def programs(tier):
-    return PROGRAMS + ([('p_fromgeo_rect', r) for r in RECTS_THOROUGH] if tier == 'thorough' else [])
+    return PROGRAMS + ([('p_fromgeo_rect', r) for r in RECTS_THOROUGH] + [('p_fromgeo_refined', r) for r in REFINED_THOROUGH] if tier == 'thorough' else [])
 
 
 def _fl(v):
